@@ -751,6 +751,20 @@ class Generator:
                     raise LostAnchor("%s: cannot find loop body in %s" % (file, path[-1]))
                 loops.append((i, j, src.match[j]))
             i += 1
+        # R12 (flag `for-ref-iter`): `for p in &EXPR {` is written `for p in EXPR.iter() {` - std defines
+        # `IntoIterator for &HashSet / &Vec` as exactly `self.iter()`; this Verus build has a
+        # specification for `iter()` of a HashSet but none for the `&HashSet` form.
+        if "for-ref-iter" in flags:
+            for (kw, lo_, _hi) in loops:
+                if s[kw].text != "for":
+                    continue
+                q = kw + 1
+                while q < lo_ and not src.is_id(q, "in"):
+                    q = src.skip_group(q) if s[q].text in "([" else q + 1
+                if q + 1 < lo_ and src.is_p(q + 1, "&") and not src.is_id(q + 2, "mut"):
+                    ed.replace(s[q + 1].start, s[q + 1].end, "", 4)
+                    ed.insert(s[lo_ - 1].end, ".iter()", 4)
+                    rules["R12"] = rules.get("R12", 0) + 1
         body_text_start = s[it.body_open].end
         fn_text = src.text
         probe_points = []
